@@ -31,6 +31,37 @@ claim("C17",
       "machine-checked proof in Rocq (Coq 8.16) of a Gallina model + source translator + exhaustive model/code correspondence",
       "DESIGN.md section 7, C17")
 
+claim("C14",
+      "Rocq theorems over the Gallina model of Action.as_dict/to_json/from_dict/from_json/__eq__/__hash__ for ALL actions "
+      "(any type, any subset and order of the eight supported parameter keys, any string/int/bool field values, valid IPv4 "
+      "texts): C14_roundtrip (+ text level for any json library with loads . dumps = id), C14_eq / C14_order (dict equality, "
+      "independent of insertion order), C14_hash (equal => equal hash, for any value hash), C14_distinct_*, C14_refuse "
+      "(the decoder accepts exactly the documents that describe a supported action), C14_decoded_typed, refusal lemmas. "
+      "Tie: translator of the codec's source shapes with per-run obligations Obl/CodecDescOk.v (match arms of from_dict, "
+      "dataclass fields and defaults, from_dict = cls(**data), __eq__/__hash__ bodies, ActionType.from_string) and a "
+      "differential run of encoder, decoder, equality and hash on 9 types x all 256 key subsets plus a malformed stream "
+      "(>7000 cases quick), evaluated by vm_compute inside Coq; a direct round-trip/equality monitor supplies failing inputs.",
+      "Trusted: Coq kernel + VM; translator harness/translate/codec.py; Python's json and ipaddress libraries enter as "
+      "premises / as the IPv4-only validity function Model/Ipv4Text.v (IPv6 texts and ill-typed field values are outside "
+      "the model); hand-written model tied by differential execution.",
+      "machine-checked proof in Rocq (Coq 8.16) of a Gallina codec model + source-shape translator with per-run obligations + model/code correspondence",
+      "DESIGN.md section 7, C14")
+
+claim("C15",
+      "Rocq theorems over the std++ (gset/gmap) model of GameState.as_dict/as_json/from_dict/from_json for ALL views: "
+      "C15_dict, C15_json (all six parts incl. blocks and data with any size/type decode to the same view), "
+      "C15_set_order / C15_map_order (the decoders do not depend on the order Python happens to write sets and dicts in), "
+      "C15_eq (views are equal exactly when their six parts contain the same elements). Tie: the same source-shape "
+      "translator and obligations as C14 (expressions that rebuild each GameState part in both decoders, as_dict literal, "
+      "observation_as_dict keys) plus differential runs on random views, re-ordered documents and a malformed stream; "
+      "C15_frame (every response is one JSON document + end-of-message marker whose view decodes to the view the "
+      "coordinator holds) is decided by a monitor over the raw bytes of real in-process coordinator sessions (partial: "
+      "not a theorem).",
+      "Trusted: Coq kernel + VM; std++ 1.8; translator harness/translate/codec.py; json library as premise; IPv4-only "
+      "address validity; the in-process loop driver and cyst stub for the session monitor.",
+      "machine-checked proof in Rocq (Coq 8.16, std++) of a Gallina codec model + source-shape translator with per-run obligations + model/code correspondence + session monitor",
+      "DESIGN.md section 7, C15")
+
 
 def main():
     hooks = {
